@@ -39,4 +39,6 @@
         ensures
             // C16: Ok means the fd HAS been deleted from the OS poller
             r is Ok ==> self.pl().w_deleted(crate::polling::fd_raw(&fd)),
+            // ... and, whatever the outcome, the deletion has been attempted
+            self.pl().w_delete_called(crate::polling::fd_raw(&fd)),
 //@ enditem
